@@ -20,7 +20,7 @@ var pureLib = map[string]bool{
 	"(net/netip.Addr).String": true, "(net/netip.AddrPort).String": true,
 	"net.JoinHostPort": true, "net.SplitHostPort": true,
 	"math/rand.Uint32": true, "math/rand/v2.Uint32": true,
-	"(time.Duration).String": true, "golang.org/x/net/bpf.Assemble": true,
+	"(time.Duration).String": true,
 	"net/netip.ParseAddr": true, "net/netip.MustParseAddr": true, "net.LookupIP": true, "(net.IP).To16": true,
 
 }
